@@ -34,6 +34,12 @@ func exec(c vh.Case, o *vh.Out) {
 	var w *pinh.World
 	var cur *pinh.Dump
 	points, replaced := 0, 0
+	tainted := false // the harness planted an index entry without record: the property's precondition is gone
+	fail := func(sig, format string, a ...any) {
+		if !tainted {
+			o.Fail(sig, format, a...)
+		}
+	}
 	for _, line := range c.Ops {
 		f := strings.Fields(line)
 		switch f[0] {
@@ -64,7 +70,7 @@ func exec(c vh.Case, o *vh.Out) {
 				points++
 				// property clause 1: records and indexes agree after reopen
 				for _, msg := range rec.Raw.ConsistencyFailures() {
-					o.Fail("index-record-mismatch", "%q cut after write %d/%d: %s", line, n, len(ws), msg)
+					fail("index-record-mismatch", "%q cut after write %d/%d: %s", line, n, len(ws), msg)
 				}
 				// property clause 2: pinned before, and still pinned by the completed op => pinned after recovery
 				for i := 0; i < w.N; i++ {
@@ -72,7 +78,7 @@ func exec(c vh.Case, o *vh.Out) {
 					pa, ka := after.PinnedAny(i)
 					pr, kr := rec.D.PinnedAny(i)
 					if kb && ka && kr && pb && pa && !pr {
-						o.Fail("crash-lost-pin", "%q cut after write %d/%d: cid %d pinned before (%s) and after the complete op (%s) but not after recovery", line, n, len(ws), i, before.IP[i], after.IP[i])
+						fail("crash-lost-pin", "%q cut after write %d/%d: cid %d pinned before (%s) and after the complete op (%s) but not after recovery", line, n, len(ws), i, before.IP[i], after.IP[i])
 					}
 				}
 			}
@@ -96,6 +102,78 @@ func exec(c vh.Case, o *vh.Out) {
 				o.Kind("continued-after-crash")
 			}
 			o.Emit("%s", strings.Join(parts, " :: "))
+		case "crash2":
+			// stop after n writes of the call, restart, stop after j writes of the recovery, restart again
+			n, j, mf := vh.Atoi(f[1]), vh.Atoi(f[2]), f[3:]
+			before := cur
+			snap0 := w.Store.Snapshot()
+			tok, ws := w.Mutate(mf)
+			after := w.QueryLight()
+			o.Kind("crash2-" + mf[0])
+			if n > len(ws) {
+				n = len(ws)
+			}
+			rb := w.RebuildWrites(snap0, ws[:n])
+			if j > len(rb) {
+				j = len(rb)
+			}
+			o.Kind("crash2-rebuild-" + strconv.Itoa(len(rb)))
+			img2 := append(append([]pinh.Write(nil), ws[:n]...), rb[:j]...)
+			rec := w.Reopen(snap0, img2)
+			points++
+			for _, msg := range rec.Raw.ConsistencyFailures() {
+				fail("index-record-mismatch", "%q: after the second restart: %s", line, msg)
+			}
+			for i := 0; i < w.N; i++ {
+				pb, kb := before.PinnedAny(i)
+				pa, ka := after.PinnedAny(i)
+				pr, kr := rec.D.PinnedAny(i)
+				if kb && ka && kr && pb && pa && !pr {
+					fail("crash-lost-pin", "%q: cid %d pinned before and after the complete op but not after the interrupted recovery", line, i)
+				}
+			}
+			w.CrashTo(snap0, img2)
+			cur = w.QueryLight()
+			o.Emit("%s %s :: rb1=%s :: %s", tok, w.CanonWrites(ws), w.CanonWrites(rb), rec.Line())
+		case "plant":
+			// corrupt the store: drop the record of a pin, keeping its index entries
+			ok := w.Plant(vh.Atoi(f[1]), vh.Atoi(f[2]))
+			tainted = tainted || ok
+			o.Kind("plant")
+			cur = w.QueryLight()
+			o.Emit("planted=%v %s", ok, cur.Line())
+		case "io":
+			// the k-th datastore write attempt of the call fails; afterwards the process is restarted
+			k, mf := vh.Atoi(f[1]), f[2:]
+			before := cur
+			tok, ws := w.MutateIO(mf, k)
+			o.Kind(mf[0])
+			o.Kind("io-" + tok)
+			live := w.QueryLight()
+			snap := w.Store.Snapshot()
+			rsLive, _ := w.Raw(snap)
+			for _, msg := range rsLive.ConsistencyFailures() {
+				if strings.Contains(msg, "without record") || strings.Contains(msg, "without matching record") {
+					fail("io-orphan-index", "%q: live state after the failed write: %s", line, msg)
+				}
+			}
+			rec := w.Reopen(snap, nil)
+			points++
+			for _, msg := range rec.Raw.ConsistencyFailures() {
+				fail("index-record-mismatch", "%q after restart: %s", line, msg)
+			}
+			if mf[0] == "pin" || mf[0] == "pinmode" { // these calls never unpin a cid
+				for i := 0; i < w.N; i++ {
+					pb, kb := before.PinnedAny(i)
+					pr, kr := rec.D.PinnedAny(i)
+					if kb && kr && pb && !pr {
+						fail("io-lost-pin", "%q (write %d failed): cid %d pinned before (%s) but not after the restart", line, k, i, before.IP[i])
+					}
+				}
+			}
+			w.CrashTo(snap, nil)
+			cur = w.QueryLight()
+			o.Emit("%s %s :: live %s :: %s", tok, w.CanonWrites(ws), live.Line(), rec.Line())
 		default:
 			o.Emit("bad-op")
 		}
